@@ -25,16 +25,18 @@ type Clause struct {
 
 type LoopSpec struct {
 	Invariants []*Clause
+	Steps      []*Clause // two-state relations between the loop head (prev) and the end of one iteration; checked on every back edge
 	Decreases  *Clause
 	Unroll     int
 	Peel       int // execute the first Peel iterations explicitly, then cut at the invariant
 }
 
 type SiteSpec struct {
-	Kind    string // call, return, store
+	Kind    string // call, def, send, iter
 	Callee  string
 	Ordinal int // 0 = every matching site
 	Clause  *Clause
+	Given   *Clause // iter: what may be assumed about the callback's arguments (item0, item1, ...)
 	matched int
 }
 
@@ -292,6 +294,10 @@ func (db *SpecDB) LoadFile(path, pkgPath string) error {
 				if c := mk("invariant", subRest, rc.line); c != nil {
 					ls.Invariants = append(ls.Invariants, c)
 				}
+			case "step":
+				if c := mk("step", subRest, rc.line); c != nil {
+					ls.Steps = append(ls.Steps, c)
+				}
 			case "decreases":
 				ls.Decreases = mk("decreases", subRest, rc.line)
 			case "unroll":
@@ -313,6 +319,23 @@ func (db *SpecDB) LoadFile(path, pkgPath string) error {
 			// at call(callee[#n]) assert [label:] expr   |  at return assert ...
 			if cur == nil {
 				db.errf(path, rc.line, "at outside func")
+				continue
+			}
+			if k := strings.Index(rest, " iterate "); k >= 0 {
+				// at call(Iter) iterate [label:] INV [given ASSUMPTION]: the callee calls its function argument any number of
+				// times; INV holds before, is preserved by each callback invocation, and is all that is known afterwards.
+				site := strings.TrimSpace(rest[:k])
+				body := rest[k+9:]
+				var given *Clause
+				if g := strings.Index(body, " given "); g >= 0 {
+					given = mk("given", body[g+7:], rc.line)
+					body = body[:g]
+				}
+				c := mk("iterate", body, rc.line)
+				if c == nil || !strings.HasPrefix(site, "call(") {
+					continue
+				}
+				cur.Sites = append(cur.Sites, &SiteSpec{Kind: "iter", Callee: site[5 : len(site)-1], Clause: c, Given: given})
 				continue
 			}
 			i := strings.Index(rest, " assert ")
